@@ -316,7 +316,8 @@ theorem sim_release (s : St) (c : Nat) : Sim s.heap (release s c).heap := by
   intro e; split <;> simp
 
 theorem sim_cacheCleanup (s : St) (c : Nat) : Sim s.heap (cacheCleanup s c).1.heap := by
-  unfold cacheCleanup
+  rw [cacheCleanup_heap]
+  unfold evicted
   apply sim_map
   intro e; split <;> simp
 
